@@ -3,7 +3,7 @@
 PID=$1; L=$2; WT=$3; PKG=$4; NEEDS=$5; RAN=$6
 D=/verif/seeded/$PID-$L; mkdir -p $D
 cp $WT/SEED/$L/patch.diff $D/patch.diff
-cp $WT/SEED/$L/demo_test.go $D/demo_test.go 2>/dev/null || cp $WT/SEED/$L/*_test.go $D/ 2>/dev/null
+cp $WT/SEED/$L/*_test.go $D/ 2>/dev/null
 cp $WT/SEED/$L/notes.md $D/notes.md 2>/dev/null
 python3 - "$PID" "$L" "$PKG" "$NEEDS" "$RAN" > $D/meta.json <<'PY'
 import json,sys
